@@ -292,7 +292,11 @@ OpLabels(st, c, o, Vals, MaxLen, MaxCnt, Its, RLens, Alias, Near) ==
                      THEN {m \in (Limit(c) - 1 - base)..(Limit(c) + 2 - base) : m >= 0 /\ m <= MaxSz[c]} ELSE {})
       \* a count / size argument is a size_type: it cannot exceed MaxSz
       Sizes == {n \in (IF big THEN (0..1) \cup {m \in sz..(sz + MaxCnt) : Fits(m)} ELSE {m \in 0..sz + MaxCnt : Fits(m)}) : n <= MaxSz[c]}
-      CtorCnts == {n \in {m \in 0..MaxCnt + 1 : Fits(m)} \cup (IF Near > 0 /\ Limit(c) <= 300 THEN (Limit(c) - Near)..(Limit(c) + 1) ELSE {}) : n <= MaxSz[c]}
+      \* (also: a size that is exactly / just beyond the maximum of another slot's narrower size_type, for swap2)
+      NarrowEdges == IF Flav[c] = "fixed" THEN {}
+                     ELSE UNION {{MaxSz[e], MaxSz[e] + 1} : e \in {f \in Slots \ {c} : Flav[f] # "fixed" /\ MaxSz[f] < MaxSz[c] /\ MaxSz[f] <= 300}}
+      CtorCnts == {n \in {m \in 0..MaxCnt + 1 : Fits(m)} \cup (IF Near > 0 /\ Limit(c) <= 300 THEN (Limit(c) - Near)..(Limit(c) + 1) ELSE {})
+                          \cup (IF o \in {"ctorCount", "ctorCountVal"} THEN NarrowEdges ELSE {}) : n <= MaxSz[c]}
       Own == IF big THEN {1, sz} ELSE 1..sz
       Srcs == {<<v, 0>> : v \in Vals} \cup (IF Alias /\ o \in AliasOps THEN {<<0, j>> : j \in Own} ELSE {})
       Same == {e \in Slots : st[e].ex /\ SameType(c, e)}
